@@ -8,6 +8,7 @@ the operator switch in /repo re-checks (and, if it breaks the property, fails) t
 -/
 import GopModel.Model.Scan
 import GopModel.Model.ScanTokens
+import GopModel.Lemmas.ScanSpecials
 namespace GopModel.Scan.C33
 open GopModel.Generated GopModel.Scan GopModel.Scan.TokFns
 
